@@ -122,7 +122,40 @@ func runVerify(pk, msg, sig []byte) string {
 	return ""
 }
 
+// runVerifyDerived: verification keys that come out of a derivation history. One ECDSA private-key object (scalar
+// d or n-d: both public-y parities occur) is the source of several Schnorr key pairs, one after the other, and of
+// x-only keys derived from its public half; every one of them is the same BIP-340 key and must verify like it.
+func runVerifyDerived(d *big.Int, msg, sig []byte) string {
+	pk := ref.BIP340PubKey(d)
+	want := ref.BIP340Verify(pk, msg, sig)
+	for _, dd := range []*big.Int{d, ref.ZnNeg(d)} {
+		esk := lib.MkPriv(dd)
+		for i := 1; i <= 4; i++ {
+			var k *bitcoin.SchnorrPublicKey
+			route := "NewSchnorrPrivateKeyFromECDSA(k).PublicKey()"
+			if i == 3 {
+				route = "NewSchnorrPublicKeyFromECDSA(k.PublicKey())"
+				k = bitcoin.NewSchnorrPublicKeyFromECDSA(esk.PublicKey())
+			} else {
+				k = bitcoin.NewSchnorrPrivateKeyFromECDSA(esk).PublicKey()
+			}
+			var got bool
+			if pn := lib.Try(func() { got = k.Verify(append([]byte{}, msg...), append([]byte{}, sig...)) }); pn != "" {
+				return "Verify panic: " + pn
+			}
+			if got != want {
+				return fmt.Sprintf("Verify under the key from derivation #%d (%s) off one ECDSA key object = %v, BIP-340 Verify = %v", i, route, got, want)
+			}
+			if !bytes.Equal(k.Bytes(), pk) {
+				return fmt.Sprintf("derivation #%d off one ECDSA key object exposes other key bytes", i)
+			}
+		}
+	}
+	return ""
+}
+
 func register() {
+	mc.Register("verifyderived", func(d mc.D) string { return runVerifyDerived(d.Big("d"), d.B("msg"), d.B("sig")) })
 	mc.Register("key", func(d mc.D) string { return runKey(d.B("bytes")) })
 	mc.Register("verify", func(d mc.D) string {
 		if d.I("gomaxprocs") == 1 {
@@ -372,6 +405,21 @@ func main() {
 			R.Sample(c.cls, map[string]any{"pk": mc.Hex(c.pk), "msg_len": len(c.msg), "sig": mc.Hex(c.sig), "bip340_verify": want})
 		}
 	})
+	// verification keys with a derivation history (see runVerifyDerived): every signing scalar x a valid signature and
+	// two that only a correct key rejects / accepts
+	for _, d := range ds {
+		msg := msgs[3]
+		sig, _ := ref.BIP340Sign(d, auxs[2], msg)
+		bad := append([]byte{}, sig...)
+		bad[63] ^= 1
+		for ci, c := range [][]byte{sig, bad} {
+			R.T(8)
+			R.Class("verify/keys with a derivation history", 1)
+			if m := mc.Safe(func() string { return runVerifyDerived(d, msg, c) }); m != "" {
+				R.Mismatch(fmt.Sprintf("verify/derived key/%d", ci), "verifyderived", m, mc.D{"d": mc.HexBig(d), "msg": mc.Hex(msg), "sig": mc.Hex(c)})
+			}
+		}
+	}
 	// the answer does not depend on the runtime configuration: the same cases (every 40th) on a scheduler restricted
 	// to ONE processor (a 1-vCPU machine; code that farms work out to goroutines must have a working serial path)
 	{
